@@ -109,6 +109,12 @@ impl Prop for C07Prop {
     fn gen(&self, rng: &mut Rng, tier: Tier) -> Scenario {
         // capacity-driven: pick N on the ladder, then a payload whose frame length lands on N-1..N+1
         let mode = rng.below(10);
+        if rng.chance(1, 150) {
+            // capacities beyond 2^16: the fill level of a fixed buffer must not be a 16-bit quantity
+            let plen = *rng.pick(&[65_510usize, 65_519, 65_520, 65_521, 65_530, 69_980, 69_984, 69_985]);
+            let p = vec![*rng.pick(&[0x00u8, 0x37, 0x1b]); plen];
+            return Scenario::Link(scn_for(p, BufKind::Arr(70_000), "capacity-64k"));
+        }
         if mode < 5 {
             let n = *rng.pick(&LADDER[16..LADDER.len() - 2]);
             let base = 4 * (n / 4);
